@@ -262,6 +262,10 @@ def check(ctx, rep):
             done_c.add(s.func)
             completeness_obligations(ctx, rep, eff, s, H)
     loader_guard_obligations(ctx, rep, eff, "R11a")
+    rep.rule("R11i", "= R12j: names read after a try statement are bound on every way out of its handlers - `except ... as e` unbinds `e` when "
+             "the handler ends, so a failure flag kept in that name turns the failed load into UnboundLocalError", floor=1)
+    from .c12 import unbound_after_try_obligations
+    unbound_after_try_obligations(ctx, rep, "R11i")
     rep.rule("R11h", "= R10c: the cache file is written once per generated listing, after the last change to it - a reader (or a writer that dies) "
              "between two writes would find a complete, loadable file with an unfinished listing, which no guard can tell from the real one", floor=2)
     from .c10 import save_order_obligations
